@@ -65,6 +65,9 @@ func build(g *Graph) *built {
 
 func (b *built) att(a *Att) *expr.AttributeExpr {
 	e := &expr.AttributeExpr{Type: b.typ(a.T), Description: a.Desc, DefaultValue: cloneAny(a.Def)}
+	if a.DefTyped {
+		e.DefaultValue = typedDefault(e.DefaultValue)
+	}
 	if a.Meta != nil {
 		e.Meta = expr.MetaExpr{}
 		for k, v := range a.Meta {
